@@ -134,7 +134,12 @@ def cases_tail():
         h = b.hex()
         out.append((["x25519_views %s" % H(b)], ["%s.%s.%s.TF.%s" % (h, h, h, h)], None))
     for n, e in ((0, "FFF"), (31, "FFF"), (32, "TTT"), (33, "FFF")):
-        out.append((["x25519_tryfrom %s" % (P(5, 0, n) if n else "h:")], [e], None))
+        out.append((["x25519_tryfrom %s" % (P(5, 0, n) if n else "h:")], [e + (".%s.%s.%s" % ((pat(5, 0, 32).hex(),) * 3) if n == 32 else "")], None))
+    # the wrappers built from slices (TryFrom<&[u8]>) hold the bytes unaltered and drive the same function
+    for b in (bytes(32), b"\xff" * 32, pat(5, 0, 32), pat(6, 1, 32), curve.BASE_U, (1).to_bytes(32, "little")):
+        out.append((["x25519_tryfrom %s" % H(b)], ["TTT.%s.%s.%s" % ((b.hex(),) * 3)], None))
+        for k in (pat(5, 3, 32), b"\xff" * 32, bytes(32)):
+            out.append((["x25519_dh_try %s %s" % (H(k), H(b))], ["%s.%s" % (curve.x25519(k, b).hex(), curve.x25519(k, curve.BASE_U).hex())], None))
     return out
 
 
